@@ -9,3 +9,35 @@ pub fn poll_fn_stream<A>(f: BoxedFn<(A,)>) -> (r: PayloadStreamObj<A>) ensures r
 
 // the boxed future a waiting submit closure returns (`Pin<Box<dyn Future<Output = Result<()>> + Send>>`); only its identity matters to the adapter contracts
 #[verifier::external_body] pub struct SubmitFut { x: u8 }
+
+// std::sync::Mutex around a raw sender (a change may keep ONE long-lived sender instead of a fresh clone per submission): `lock()` hands
+// out that same sender; whether it is still `fresh()` is unknown (it may have sent before and be parked). Poisoning is not modelled.
+#[verifier::external_body] #[verifier::accept_recursive_types(T)] pub struct StdMutex<T> { p: core::marker::PhantomData<T> }
+#[verifier::external_body] #[verifier::accept_recursive_types(T)] pub struct StdMutexGuard<T> { p: core::marker::PhantomData<T> }
+pub struct LockResultV<G> { pub g: G }
+pub struct PoisonIntoInner;
+impl<G> LockResultV<G> {
+    pub fn unwrap(self) -> (r: G) ensures r == self.g { self.g }
+    pub fn expect(self, msg: &str) -> (r: G) ensures r == self.g { self.g }
+    pub fn unwrap_or_else(self, f: PoisonIntoInner) -> (r: G) ensures r == self.g { self.g }
+}
+impl<T> StdMutex<MpscSender<T>> {
+    pub uninterp spec fn q(&self) -> int;
+    #[verifier::external_body] pub fn new(t: MpscSender<T>) -> (r: Self) ensures r.q() == t.q() { unimplemented!() }
+    #[verifier::external_body] pub fn lock(&self) -> (r: LockResultV<StdMutexGuard<MpscSender<T>>>) ensures r.g.q() == self.q() { unimplemented!() }
+}
+impl<T> OwnView for StdMutex<MpscSender<T>> { open spec fn own(&self) -> Own { Own { none: false, chan: self.q(), s_tx: true, s_force: true, w_tx: false, w_force: false, mixed: false } } }
+impl<T> StdMutexGuard<MpscSender<T>> {
+    pub uninterp spec fn q(&self) -> int;
+    pub uninterp spec fn fresh(&self) -> bool;
+    #[verifier::external_body]
+    pub fn start_send(&mut self, msg: T, Tracked(w): Tracked<&mut World>) -> (r: Result<(), SendError>)
+        ensures final(self).q() == old(self).q(), submit_try_post(old(self).q(), pid_of(&msg), true, old(w), final(w), r is Ok),
+            old(self).fresh() && r is Err ==> final(w).closed.contains(old(self).q()),
+    { unimplemented!() }
+    #[verifier::external_body]
+    pub fn try_send(&mut self, msg: T, Tracked(w): Tracked<&mut World>) -> (r: Result<(), TrySendError<T>>)
+        ensures final(self).q() == old(self).q(), submit_try_post(old(self).q(), pid_of(&msg), true, old(w), final(w), r is Ok),
+            old(self).fresh() && r is Err ==> final(w).closed.contains(old(self).q()),
+    { unimplemented!() }
+}
